@@ -255,22 +255,24 @@ def mon_c08(h):
         if s not in idx_of:
             idx_of[s] = len(states)
             states.append(s)
-    last_read = {}
-    hi = 0
+    # real-time monotonicity: a read invoked after another read has returned is not older.
+    # (INV is logged before the call and RET after it, so "RET x logged before INV y" implies
+    # that x really returned before y was invoked; only that direction is used)
+    hi = 0                 # newest state index among reads that have returned so far
+    pending = {}           # thread -> hi at the time of its INV gs
     for e in h.ev:
-        if e["kind"] == "RET" and e["f"][0] == "gs":
+        if e["kind"] == "INV" and e["f"][0] == "gs":
+            pending[e["t"]] = hi
+        elif e["kind"] == "RET" and e["f"][0] == "gs":
             s = e["f"][1][len("state="):]
             if s not in idx_of:
                 bad.append(("consistent", "get_state returned %s which no action produced" % s))
                 continue
             j = idx_of[s]
-            if j < hi:
-                bad.append(("monotonic", "get_state returned %s after a newer state had been read" % s))
+            floor = pending.pop(e["t"], 0)
+            if j < floor:
+                bad.append(("monotonic", "get_state returned %s although a read that had already returned saw a newer state" % s))
             hi = max(hi, j)
-        if e["kind"] == "CBREAD":
-            s = e["f"][0]
-            if s in idx_of:
-                hi = max(hi, idx_of[s])
     # while a subscriber is told about action a, reads return a's state or newer
     for k, e in enumerate(h.ev):
         if e["kind"] == "CBREAD" and k + 1 < len(h.ev) and h.ev[k + 1]["kind"] == "NOTIFY" and h.ev[k + 1]["t"] == e["t"]:
@@ -427,8 +429,10 @@ def mon_c14(h):
             created[int(e["f"][0].split(":")[1])] = e["i"]
     expect = notifying_actions(h)
     exp_txt = ["item=%s@%d" % (s, a) for s, a in expect]
+    reduced_acts = {int(e["f"][1]) for e in h.kinds("RED")}
     for s, got in items.items():
-        vals = [g for g in got if g != "item=none"]
+        # vetoed actions (no reducer call) may or may not notify: unspecified, ignore their items
+        vals = [g for g in got if g != "item=none" and int(g.split("@")[1]) in reduced_acts]
         # no gaps / repeats: a contiguous run of the notification stream
         if vals:
             if vals[0] not in exp_txt:
@@ -561,6 +565,16 @@ def mon_c07(h):
         phase = max(phase, ph)
     if len(os_threads - {0}) > 1:
         bad.append(("one-context", "reducer-context callbacks ran on %d different threads" % len(os_threads)))
+    # subscribers of one action are called in registration order (initial direct subscribers)
+    directs = [s for s, k, _ in h.sc["subs"] if k == "direct"]
+    last = {}
+    for e in h.kinds("NOTIFY"):
+        if e["t"] != 100:
+            continue
+        a, s = int(e["f"][2]), int(e["f"][0])
+        if a in last and s in directs and last[a] in directs and directs.index(s) < directs.index(last[a]):
+            bad.append(("registration-order", "action %d: subscriber %d notified after %d" % (a, s, last[a])))
+        last[a] = s
     # direct subscribers / reducers / middlewares registered before the dispatch are not left out
     return bad
 
@@ -600,6 +614,24 @@ def mon_c13(h):
     return bad, known
 
 
-MONITORS = {"C05": mon_c05, "C06": mon_c06, "C07": mon_c07, "C13": mon_c13, "C15": mon_c04, "C16": mon_c16,
+# ---- C19 -----------------------------------------------------------------------------------------
+def mon_c19(h):
+    """one store of a pair, judged on its own: everything the per-store properties say, plus: an
+    open store never rejects a dispatch (whoever calls, from whatever thread)"""
+    bad = []
+    first_close = next((e["i"] for e in h.ev if e["kind"] == "INV" and e["f"][0] in ("close", "stop", "drop")
+                        or e["kind"] == "HARNESS-CLEANUP"), None)
+    for e in h.ev:
+        if e["kind"] == "RET" and e["f"][0].startswith("d.") and e["f"][1] == "err":
+            entry = e["f"][0].split(".")[1]
+            if (first_close is None or e["i"] < first_close) and not (entry == "D" and h.sc["pol"] == "latest"):
+                bad.append(("acceptance", "dispatch %s was rejected although this store was open" % e["f"][0]))
+    for m in (mon_c01, mon_c03, mon_c04, mon_c05, mon_c06, mon_c18):
+        r = m(h)
+        bad += [("per-store/" + c, d) for c, d in (r[0] if isinstance(r, tuple) else r)]
+    return bad
+
+
+MONITORS = {"C19": mon_c19, "C05": mon_c05, "C06": mon_c06, "C07": mon_c07, "C13": mon_c13, "C15": mon_c04, "C16": mon_c16,
             "C01": mon_c01, "C02": mon_c02, "C03": mon_c03, "C04": mon_c04, "C08": mon_c08,
             "C09": mon_c09, "C10": mon_c10, "C11": mon_c11, "C14": mon_c14, "C18": mon_c18}
